@@ -1,6 +1,6 @@
 (** C07 for heaps: lists, dicts and sets with sharing and cycles (heap_roundtrip). Lock-step simulation of
     the encoder by the decoder. *)
-From Dawn Require Import Pickle.Model Pickle.Spec Pickle.Proofs_C15 Pickle.Proofs_Base Pickle.Proofs_Tree.
+From Dawn Require Import Pickle.Model Pickle.Spec Pickle.Proofs_C15 Pickle.Proofs_Base Pickle.Proofs_Tree Pickle.Proofs_Term.
 From Coq Require Import Lia.
 Open Scope N_scope.
 
@@ -28,9 +28,10 @@ Proof. intros rho rho' I l l' H. induction H; constructor; eauto using vrel_mono
 
 Lemma nrel_mono : forall rho rho', incl rho rho' -> forall nd nd', nrel rho nd nd' -> nrel rho' nd nd'.
 Proof.
-  intros rho rho' I nd nd' R. inversion R as [l l' H|kvs kvs' H|l l' H]; subst; constructor.
+  intros rho rho' I nd nd' R. inversion R as [l l' H|kvs kvs' H|l l' H|m n l l' H]; subst; constructor.
   - eapply Forall2_vrel_mono; eassumption.
   - clear R. induction H as [|p p' ? ? Hp]; constructor; auto. destruct Hp as [A B]. split; eapply vrel_mono; eassumption.
+  - eapply Forall2_vrel_mono; eassumption.
   - eapply Forall2_vrel_mono; eassumption.
 Qed.
 
@@ -178,6 +179,16 @@ Section Steps.
     = SNext r (mkD (VRef t :: s) (d_memo st) (heap_upd (d_heap st) t (NList (l ++ [v]))) (d_nglob st)).
   Proof. intros E H. cbn. rewrite E, H. reflexivity. Qed.
 
+  Lemma step_STACK_GLOBAL r st m n s : d_stack st = VStr n :: VStr m :: s ->
+    step unp lim (opSTACK_GLOBAL :: r) st
+    = SNext r (mkD (VGlobal (d_nglob st) m n :: s) (d_memo st) (d_heap st) (d_nglob st + 1)).
+  Proof. intros E. cbn. rewrite E. reflexivity. Qed.
+
+  Lemma step_NEWOBJ r st g m n args s : unp = Some obj_unpickler -> d_stack st = VTuple args :: VGlobal g m n :: s ->
+    step unp lim (opNEWOBJ :: r) st
+    = SNext r (mkD (VRef (length (d_heap st)) :: s) (d_memo st) (d_heap st ++ [NObj m n args]) (d_nglob st)).
+  Proof. intros U E. cbn. rewrite E, U. reflexivity. Qed.
+
   (** the three batch opcodes, uniformly *)
   Definition batch_step (op : N) (kind : node -> Prop) (ok : list val -> Prop) (upd : node -> list val -> node) :=
     forall r st items t below nd,
@@ -278,18 +289,6 @@ End Steps.
 (* ------------------------------------------------------------------------------------------------ *)
 (** * List facts: chunks, flat_pairs, dict_set / set_add on distinct keys *)
 
-Lemma chunks_concat : forall {A} fuel k (l : list A), (0 < k)%nat -> (length l <= fuel)%nat -> concat (chunks fuel k l) = l.
-Proof.
-  intros A fuel. induction fuel as [|f IH]; intros k l K L.
-  - destruct l; [reflexivity|cbn in L; lia].
-  - destruct l as [|x r]; [reflexivity|]. cbn [chunks concat].
-    rewrite IH; [apply firstn_skipn|exact K|].
-    rewrite skipn_length. cbn [length] in *. lia.
-Qed.
-
-Lemma batches_concat : forall {A} (l : list A), concat (batches l) = l.
-Proof. intros. unfold batches. apply chunks_concat; [unfold batch_size; lia|lia]. Qed.
-
 Lemma in_concat_incl : forall {A} (ls : list (list A)) b, In b ls -> incl b (concat ls).
 Proof. intros A ls b HI x Hx. apply in_concat. eauto. Qed.
 
@@ -309,11 +308,6 @@ Proof.
   - cbn in F. inversion F as [|? k' ? t1 Rk F1]; subst. inversion F1 as [|? v' ? t2 Rv F2]; subst.
     destruct (IH _ F2) as [kvs' [-> R]]. exists ((k', v') :: kvs'). split; [reflexivity|].
     constructor; [split; assumption|assumption].
-Qed.
-
-Lemma flat_pairs_concat : forall pss, concat (map flat_pairs pss) = flat_pairs (concat pss).
-Proof.
-  induction pss; [reflexivity|]. cbn. rewrite IHpss. unfold flat_pairs. rewrite flat_map_app. reflexivity.
 Qed.
 
 Lemma dict_replace_none : forall kvs k v, existsb (key_eq k) (map fst kvs) = false -> dict_replace kvs k v = None.
@@ -399,7 +393,10 @@ Section Sim.
   Variable pk : option (node -> presult).
   Variable h : heap.
   Hypothesis WFH : wf_heap h.
-  Hypothesis NH : no_host pk h.
+  (** the pickler/unpickler pair is object-preserving, and no object it takes is reachable from its own
+      constructor arguments (both hold trivially when the pickler declines every object of the heap) *)
+  Hypothesis HP : host_pair pk unp h.
+  Hypothesis AC : host_acyclic pk h.
 
   Definition INV (rho : corr) (est : estate) (dst : dstate) : Prop :=
     Inv (length h) rho est (d_memo dst) (length (d_heap dst)).
@@ -417,7 +414,7 @@ Section Sim.
     p_inv : INV rho' est' dst';
     p_len : (length (d_heap dst) <= length (d_heap dst'))%nat;
     p_frame : forall x, (x < length (d_heap dst))%nat -> keep x -> nth_error (d_heap dst') x = nth_error (d_heap dst) x;
-    p_nglob : d_nglob dst' = d_nglob dst }.
+    p_nglob : d_nglob dst <= d_nglob dst' }.
 
   Lemma post_refl : forall keep rho est d d', same_store d d' -> INV rho est d -> post keep rho d est rho d'.
   Proof.
@@ -426,20 +423,20 @@ Section Sim.
     - eapply INV_same; eassumption.
     - rewrite A. lia.
     - intros. rewrite A. reflexivity.
-    - congruence.
+    - rewrite C. apply N.le_refl.
   Qed.
 
   Lemma post_same_l : forall keep rho d0 d0' est' rho' d1,
       same_store d0 d0' -> post keep rho d0 est' rho' d1 -> post keep rho d0' est' rho' d1.
   Proof.
-    intros keep rho d0 d0' est' rho' d1 [A [B C]] []. constructor; try rewrite <- A; try assumption. congruence.
+    intros keep rho d0 d0' est' rho' d1 [A [B C]] []. constructor; try rewrite <- A; try assumption. rewrite <- C. assumption.
   Qed.
 
   Lemma post_same_r : forall keep rho d0 est' rho' d1 d1',
       same_store d1 d1' -> post keep rho d0 est' rho' d1 -> post keep rho d0 est' rho' d1'.
   Proof.
     intros keep rho d0 est' rho' d1 d1' S []. pose proof S as [A [B C]].
-    constructor; try rewrite <- A; try assumption; [eapply INV_same; eassumption|congruence].
+    constructor; try rewrite <- A; try assumption; [eapply INV_same; eassumption|rewrite <- C; assumption].
   Qed.
 
   Lemma post_keep : forall (keep keep' : addr -> Prop) rho d0 est' rho' d1,
@@ -474,7 +471,7 @@ Section Sim.
     - exact I2'.
     - lia.
     - intros x Lx Kx. rewrite F2 by (try lia; assumption). apply F1; assumption.
-    - congruence.
+    - eapply N.le_trans; eassumption.
   Qed.
 
   (** [sim_val enc v]: running the code that [enc] emits for [v] pushes a value related to [v] *)
@@ -562,7 +559,7 @@ Section Sim.
           rewrite heap_upd_length. exact IB.
         - subst dC. cbn [d_heap]. rewrite heap_upd_length. lia.
         - intros x Lx Nx. subst dC. cbn [d_heap]. apply nth_error_heap_upd_other. exact Nx.
-        - reflexivity. }
+        - apply N.le_refl. }
       assert (HC : nth_error (d_heap dC) t = Some (upd nd l1)).
       { subst dC. cbn [d_heap]. apply nth_error_heap_upd_same. exact LB. }
       destruct (IH Sr Wr (fun b0 items' HI => OK b0 items' (or_intror HI)) _ _ _ _ dC t s (upd nd l1) E2
@@ -605,7 +602,7 @@ Section Sim.
     - exact I4.
     - lia.
     - intros x Lx _. rewrite F4 by lia. subst d2. cbn [d_heap]. apply nth_error_app1. exact Lx.
-    - rewrite G4. reflexivity.
+    - exact G4.
   Qed.
 
   Lemma INV_open : forall rho est dst a nd0,
@@ -676,15 +673,12 @@ Section Sim.
   Qed.
 
   Lemma pk_builtin : forall {A} (X : A) (Y : bytes -> bytes -> list val -> A) (Z : A) nd,
-      In nd h ->
+      In nd h -> is_list nd \/ is_dict nd ->
       match pk with
       | None => X
       | Some p => match p nd with POk m n args => Y m n args | PCannot => X | PFail => Z end
       end = X.
-  Proof.
-    intros A X Y Z nd HI. pose proof NH as NH'. unfold no_host in NH'. revert NH'. generalize pk.
-    intros [p|] NH'; [|reflexivity]. rewrite (NH' p nd eq_refl HI). reflexivity.
-  Qed.
+  Proof. intros A X Y Z nd HI K. eapply host_pair_builtin; [exact HP|exact HI|exact K]. Qed.
 
   Lemma pairs_of_even : forall n l, length l = (2 * n)%nat -> pairs_of l <> None.
   Proof.
@@ -842,7 +836,7 @@ Section Sim.
         assert (WN : wf_node nd) by (destruct WFH as [WF _]; rewrite Forall_forall in WF; apply WF; exact InH).
         destruct nd as [l|kvs|l|m n args].
         * (* list *)
-          rewrite pk_builtin in E by exact InH. cbn [wf_node] in WN.
+          rewrite pk_builtin in E by first [exact InH|left; eexists; reflexivity|right; eexists; reflexivity]. cbn [wf_node] in WN.
           destruct l as [|x1 [|x2 rest]].
           -- inversion E; subst. clear E.
              destruct (sim_open opEMPTY_LIST (NList []) opAPPENDS is_list (fun _ => True) upd_list
@@ -878,7 +872,7 @@ Section Sim.
                  rewrite heap_upd_length. exact IB.
                - subst d4. cbn [d_heap]. rewrite heap_upd_length. lia.
                - intros x Lx Nx. subst d4. cbn [d_heap]. apply nth_error_heap_upd_other. exact Nx.
-               - reflexivity. }
+               - apply N.le_refl. }
              exists rho1, d4, (VRef n). split; [|split; [|split]].
              ++ intros k. cbn [app]. eapply reach_step; [apply step_EMPTY_LIST|]. eapply reach_step.
                 ** eapply step_MEMOIZE. reflexivity.
@@ -916,7 +910,7 @@ Section Sim.
                 exists (NList l), (NList (concat its)). repeat split; try assumption.
                 constructor. rewrite <- (batches_concat l) at 1. apply Forall2_concat. exact V.
         * (* dict *)
-          rewrite pk_builtin in E by exact InH. cbn [wf_node] in WN. destruct WN as [WK [WV DK]].
+          rewrite pk_builtin in E by first [exact InH|left; eexists; reflexivity|right; eexists; reflexivity]. cbn [wf_node] in WN. destruct WN as [WK [WV DK]].
           destruct (enc_batches (encode pk f h) opSETITEMS (map flat_pairs (batches kvs)) (e_memoize a est))
             as [[bb e1]| | | |] eqn:EB; try discriminate.
           cbn [bind] in E. inversion E. subst b est'. clear E.
@@ -970,8 +964,53 @@ Section Sim.
              assert (LE : concat its = l) by (eapply hashable_keys_eq; eassumption).
              rewrite set_fold_distinct in H3 by (rewrite LE; exact DK). cbn [app] in H3.
              exists (NSet l), (NSet (concat its)). repeat split; try assumption. constructor. exact LR.
-        * (* host object: the pickler declines, "cannot pickle" *)
-          rewrite pk_builtin in E by exact InH. discriminate.
+        * (* host object *)
+          cbn [wf_node] in WN. pose proof WN as WA.
+          destruct (host_pair_taken _ _ _ _ _ _ HP InH) as [TK|[TK [UE [WM WN']]]].
+          { rewrite (pk_declined_obj pk) in E by exact TK. discriminate. }
+          rewrite (pk_taken pk) with (m := m) (n := n) (args := args) in E by exact TK.
+          destruct (encode pk f h est (VTuple args)) as [[b1 st1]| | | |] eqn:EA; try discriminate.
+          cbn [bind] in E. inversion E. subst b est'. clear E.
+          pose proof (taken_fresh pk h AC f est a _ m n args b1 st1 MF HA TK EA) as MF1.
+          set (dC := mkD (VGlobal (d_nglob dst) m n :: d_stack dst) (d_memo dst) (d_heap dst) (d_nglob dst + 1)).
+          assert (IC : INV rho est dC) by exact I.
+          assert (WT : wf_val (VTuple args)) by (constructor; exact WA).
+          destruct (IH (VTuple args) _ _ _ _ dC EA IC WT) as [rho1 [d1 [v1 [R1 [S1 [V1 P1]]]]]].
+          inversion V1 as [| | | | | |? args' VA|]; subst.
+          set (n1 := length (d_heap d1)).
+          set (d2 := mkD (VRef n1 :: d_stack dst) (d_memo d1) (d_heap d1 ++ [NObj m n args']) (d_nglob d1)).
+          set (d3 := mkD (VRef n1 :: d_stack dst) (d_memo d1 ++ [VRef n1]) (d_heap d1 ++ [NObj m n args']) (d_nglob d1)).
+          pose proof (post_incl _ _ _ _ _ _ P1) as I01.
+          assert (P13 : post (fun _ => True) rho1 d1 (e_memoize a st1) (rho1 ++ [(a, n1)]) d3).
+          { constructor.
+            - exists [(a, n1)]. split; [reflexivity|]. intros x x' [HI|[]]. inversion HI; subst x x'. split; [subst n1; lia|].
+              exists (NObj m n args), (NObj m n args'). repeat split.
+              + exact HA.
+              + subst d3. cbn [d_heap]. rewrite nth_error_app2 by (subst n1; lia). subst n1. rewrite Nat.sub_diag. reflexivity.
+              + constructor. eapply Forall2_vrel_mono; [|exact VA]. apply incl_appl, incl_refl.
+            - unfold INV. subst d3. cbn [d_memo d_heap]. rewrite app_length. cbn [length]. rewrite Nat.add_1_r.
+              apply Inv_memoize; [exact (p_inv _ _ _ _ _ _ P1)|exact MF1|exact LA].
+            - subst d3. cbn [d_heap]. rewrite app_length. lia.
+            - intros x Lx _. subst d3. cbn [d_heap]. apply nth_error_app1. exact Lx.
+            - apply N.le_refl. }
+          exists (rho1 ++ [(a, n1)]), d3, (VRef n1). split; [|split; [|split]].
+          -- intros k. repeat rewrite <- app_assoc.
+             eapply reach_trans; [apply reach_str; exact WM|].
+             eapply reach_trans; [apply reach_str; exact WN'|].
+             cbn [app]. eapply reach_step; [apply step_STACK_GLOBAL; reflexivity|].
+             cbn [push set_stack d_stack d_memo d_heap d_nglob]. fold dC.
+             rewrite <- app_assoc. eapply reach_trans; [apply R1|].
+             cbn [app]. eapply reach_step; [eapply step_NEWOBJ; [exact UE|exact S1]|]. fold n1. fold d2.
+             apply reach_one. erewrite step_MEMOIZE by reflexivity. reflexivity.
+          -- reflexivity.
+          -- constructor. apply in_app_iff. right. left. reflexivity.
+          -- eapply post_trans with (d1 := d1); [auto| |exact P13].
+             constructor.
+             ++ exact (p_ext _ _ _ _ _ _ P1).
+             ++ exact (p_inv _ _ _ _ _ _ P1).
+             ++ exact (p_len _ _ _ _ _ _ P1).
+             ++ exact (p_frame _ _ _ _ _ _ P1).
+             ++ pose proof (p_nglob _ _ _ _ _ _ P1) as G. subst dC. cbn [d_nglob] in G. lia.
     - discriminate.
     - discriminate.
   Qed.
@@ -980,15 +1019,15 @@ End Sim.
 (* ------------------------------------------------------------------------------------------------ *)
 (** * The round-trip theorem *)
 
-Theorem heap_roundtrip_proof : forall pk unp fuel h v bs,
-    wf_heap h -> no_host pk h -> wf_val v ->
+Theorem host_roundtrip_proof : forall pk unp fuel h v bs,
+    wf_heap h -> host_pair pk unp h -> host_acyclic pk h -> wf_val v ->
     encode_top pk fuel h v = Ok bs ->
     exists v' h', decode unp bs = Ok (v', h') /\ iso h v h' v'.
 Proof.
-  intros pk unp fuel h v bs WFH NH W E. unfold encode_top in E.
+  intros pk unp fuel h v bs WFH HP AC W E. unfold encode_top in E.
   destruct (encode pk fuel h estate0 v) as [[b est1]| | | |] eqn:E1; try discriminate.
   cbn [bind] in E. inversion E; subst bs. clear E.
-  destruct (encode_sim unp (len (b ++ [opSTOP])) pk h WFH NH fuel v estate0 b est1 [] dstate0 E1 (Inv0 _) W)
+  destruct (encode_sim unp (len (b ++ [opSTOP])) pk h WFH HP AC fuel v estate0 b est1 [] dstate0 E1 (Inv0 _) W)
     as [rho' [d' [v' [R [SS [V P]]]]]].
   exists v', (d_heap d'). split.
   - unfold decode.
@@ -1001,14 +1040,24 @@ Proof.
     intros a a' HI. apply (CN _ _ HI).
 Qed.
 
+Theorem heap_roundtrip_proof : forall pk unp fuel h v bs,
+    wf_heap h -> no_host pk h -> wf_val v ->
+    encode_top pk fuel h v = Ok bs ->
+    exists v' h', decode unp bs = Ok (v', h') /\ iso h v h' v'.
+Proof.
+  intros pk unp fuel h v bs WFH NH W E.
+  eapply host_roundtrip_proof; eauto using no_host_pair, no_host_acyclic.
+Qed.
+
 (** two graphs with the same encoding are both isomorphic to the one decoded graph *)
 Theorem same_encoding_iso_proof : forall pk unp f1 f2 h1 v1 h2 v2 bs,
-    wf_heap h1 -> no_host pk h1 -> wf_val v1 -> wf_heap h2 -> no_host pk h2 -> wf_val v2 ->
+    wf_heap h1 -> host_pair pk unp h1 -> host_acyclic pk h1 -> wf_val v1 ->
+    wf_heap h2 -> host_pair pk unp h2 -> host_acyclic pk h2 -> wf_val v2 ->
     encode_top pk f1 h1 v1 = Ok bs -> encode_top pk f2 h2 v2 = Ok bs ->
     exists v' h', decode unp bs = Ok (v', h') /\ iso h1 v1 h' v' /\ iso h2 v2 h' v'.
 Proof.
-  intros pk unp f1 f2 h1 v1 h2 v2 bs W1 N1 V1 W2 N2 V2 E1 E2.
-  destruct (heap_roundtrip_proof pk unp f1 h1 v1 bs W1 N1 V1 E1) as [v' [h' [D1 I1]]].
-  destruct (heap_roundtrip_proof pk unp f2 h2 v2 bs W2 N2 V2 E2) as [v'' [h'' [D2 I2]]].
+  intros pk unp f1 f2 h1 v1 h2 v2 bs W1 N1 A1 V1 W2 N2 A2 V2 E1 E2.
+  destruct (host_roundtrip_proof pk unp f1 h1 v1 bs W1 N1 A1 V1 E1) as [v' [h' [D1 I1]]].
+  destruct (host_roundtrip_proof pk unp f2 h2 v2 bs W2 N2 A2 V2 E2) as [v'' [h'' [D2 I2]]].
   rewrite D1 in D2. inversion D2; subst. eauto.
 Qed.
